@@ -202,6 +202,25 @@ def run(repo, rep, tier):
             if g is f:
                 dd = Derived(f, lambda e: False, extra_seeds={par})
                 for node, desc in dd.mutations():
+                    # a mutation guarded by a condition that is false for the default value itself never touches the shared default object
+                    dv = param_default(f, par)
+                    harmless = False
+                    if dv is not None:
+                        try:
+                            from sa.abseval import ev as _ev, Unknown as _Unk
+                            val = _ev(dv, {})
+                            conds = [(t, pol) for t, pol, k in path_condition(node) if k in ('if', 'guard')]
+                            for t, pol in conds:
+                                try:
+                                    if bool(_ev(t, {par: val})) != pol:
+                                        harmless = True
+                                except _Unk:
+                                    pass
+                        except Exception:
+                            harmless = False
+                    if harmless:
+                        rep.note('mutable default %s: the in-place edit `%s` is guarded by a condition that is false for the default value, so the shared default object is never edited' % (key, desc[:60]))
+                        continue
                     rep.check('writers', 'mutable default %s is never mutated' % key, False, node, 'mutable default argument %s is mutated (%s): state carries over between calls' % (key, desc))
                 rep.ob('writers', 'mutable default %s scanned' % key, True)
                 # passing the default on to a constructor that stores it is fine as long as nobody mutates it (checked where stored)
